@@ -2,6 +2,7 @@
 //! usage: rfverif <property> --tier quick|thorough --seed N --out DIR
 #![feature(rustc_private)]
 extern crate rustc_lexer;
+mod c07;
 mod c09;
 mod c12;
 mod corpus;
@@ -32,6 +33,7 @@ fn main() {
         i += 1;
     }
     let code = match prop.as_str() {
+        "c07" => c07::run(&tier, seed, &out),
         "c09" => c09::run(&tier, seed, &out),
         "c12" => c12::run(&tier, seed, &out),
         "probe" => probe(&out),
